@@ -324,8 +324,8 @@ pub fn schedules(max_len: usize) -> Vec<Vec<usize>> {
 pub fn run(ctx: &Ctx, rep: &mut Report, unit: &mut usize) {
     let prop = ctx.prop.clone();
     let max_len = ctx.tier.pick(2, 3);
-    let total = ctx.tier.pick(16usize << 20, 64 << 20);
-    let max_calls = ctx.tier.pick(200_000usize, 2_000_000);
+    let total = ctx.tier.pick(8usize << 20, 64 << 20);
+    let max_calls = ctx.tier.pick(100_000usize, 2_000_000);
     let scheds = schedules(max_len);
     let mut configs = 0u64;
     for sched in &scheds {
